@@ -3,7 +3,7 @@ import re, itertools
 from vlib import core
 
 PROP = 'C11'
-MODULES = ['PistacheModel.Props.C11', 'PistacheModel.Props.C11Global', 'PistacheModel.Props.C11Reject', 'PistacheModel.Props.C11Value', 'PistacheModel.Props.C11Rethrow', 'PistacheModel.Props.C11NoThrow', 'PistacheModel.Props.C11Complete']
+MODULES = ['PistacheModel.Props.C11', 'PistacheModel.Props.C11Global', 'PistacheModel.Props.C11Reject', 'PistacheModel.Props.C11Value', 'PistacheModel.Props.C11Rethrow', 'PistacheModel.Props.C11NoThrow', 'PistacheModel.Props.C11Complete', 'PistacheModel.Props.C11Combine']
 THEOREMS = ['Pistache.Promise.Props.' + t for t in (
     'reject_step_no_call', 'resolve_step_call', 'resolve_step_guard', 'reject_step_guard', 'late_resolve_silent', 'late_reject_silent',
     'then_on_fulfilled_runs_now', 'then_on_rejected_runs_now')] + \
@@ -13,8 +13,11 @@ THEOREMS = ['Pistache.Promise.Props.' + t for t in (
                                                          'reth_execAll', 'rethrow_same_exception', 'rethrow_chain_link',
                                                          'thrown_only_when_settled', 'settle_pending_never_throws', 'reject_pending_never_throws',
                                                          'sched_execAll', 'fulfilled_continuation_ran_partial', 'rejected_continuation_told_partial',
-                                                         'quiescentFrom_of_wf', 'fulfilled_continuation_ran', 'rejected_continuation_told', 'rejected_handler_ran')] + \
-           ['Pistache.Promise.' + t for t in ('inv_step', 'inv_run', 'own_step', 'own_run', 'sound_step', 'sound_run', 'good_exec', 'reth_step', 'reth_run', 'reth_exec', 'data_step', 'data_run', 'data_exec', 'all_spent', 'sched_step', 'sched_run', 'term_step', 'run_quiescent', 'potential_le_fuel', 'settle_quiescent')]
+                                                         'quiescentFrom_of_wf', 'fulfilled_continuation_ran', 'rejected_continuation_told', 'rejected_handler_ran',
+                                                         'inv_split', 'any_block_outcome', 'all_block_outcome', 'combinator_block',
+                                                         'whenAny_takes_argument_outcome', 'whenAll_carries_argument_values')] + \
+           ['Pistache.Promise.' + t for t in ('inv_step', 'inv_run', 'own_step', 'own_run', 'sound_step', 'sound_run', 'good_exec', 'reth_step', 'reth_run', 'reth_exec', 'data_step', 'data_run', 'data_exec', 'all_spent', 'sched_step', 'sched_run', 'term_step', 'run_quiescent', 'potential_le_fuel', 'settle_quiescent',
+                                              'val_step', 'val_run', 'val_exec', 'idx_fresh', 'step_keep', 'execAll_keep')]
 
 class Builder:
     """builds a well-typed program: tracks which promise ids exist, their C++ type, and which may still be used"""
@@ -109,6 +112,9 @@ def gen(tier, rnd):
         for _ in range(rnd.randint(0, 3)): b.settle(again=rnd.random() < .1)
         if rnd.random() < .5 and b.thenable(): b.then()
         L.append(b.line())
+    # the same programs run by a harness that lets go of every handle (promise object, resolver, rejection) right after the
+    # last operation naming it, as the temporaries and locals of a C++ program would: lifetimes must not change what runs
+    L += ['progd' + l[4:] for l in L]
     return L
 
 BAD = ('ASAN', 'UBSAN', 'HANG', 'CRASH', 'TERMINATE', 'MISSING', 'bad-prog')
@@ -117,10 +123,13 @@ def oracle(line, out):
     """direct statement of C11 on the implementation's log"""
     if any(x in out for x in BAD):
         return ('crash', 'implementation aborted/hung or rejected the program: ' + out[:120])
+    if 'LIFETIME-DIFF' in out:
+        return ('lifetime', 'what runs depends on which handles the program still holds: with every handle dropped after its last use %s, with all handles kept %s'
+                % (out.split(' LIFETIME-DIFF')[0], out.split('LIFETIME-DIFF')[1]))
     m = re.fullmatch(r'(\S+) \| log=(\S+) \| st=(\S+)', out)
     if not m: return 'unexpected output ' + out[:80]
     outs = m.group(1).split(','); log = [] if m.group(2) == '-' else m.group(2).split(',')
-    ops = [o.strip() for o in line[5:].split(' ; ')]
+    ops = [o.strip() for o in line.split(' ', 1)[1].split(' ; ')]
     # every continuation at most once
     tags = [e.split('(')[0] for e in log]
     for t in set(tags):
@@ -180,6 +189,18 @@ def oracle(line, out):
             if exc is None: continue
             if hcb not in rejran: return ('rej-missing', 'promise %d is rejected with %d (through rethrow links) but the custom handler r%d attached to it never ran: %s' % (par, exc, hcb, m.group(2)))
             if rejran[hcb] != [exc]: return ('rej-exception', 'custom handler r%d on promise %d (rejected with %d) ran with %s' % (hcb, par, exc, rejran[hcb]))
+    # completeness on the implementation's own final states: a continuation attached to a promise that IS fulfilled has run,
+    # a custom handler attached to a promise that IS rejected has run
+    st = m.group(3)
+    if st != '-' and len(st) == len(slots):
+        for w in slots:
+            if w[0] != 'then': continue
+            par = int(w[1]); cb = int(w[2])
+            if par >= len(st): continue
+            if st[par] == 'F' and cb not in ran:
+                return ('never-ran', 'promise %d is fulfilled but its continuation c%d never ran: %s' % (par, cb, out[:200]))
+            if st[par] == 'R' and w[4].startswith('cus:') and int(w[4][4:]) not in rejran:
+                return ('never-told', 'promise %d is rejected but its custom handler r%s never ran: %s' % (par, w[4][4:], out[:200]))
     if 'T' not in outs:
         for w in slots:
             if w[0] != 'then': continue
@@ -199,12 +220,13 @@ def oracle(line, out):
     return None
 
 def classify(line, out):
-    ops = line[5:].split(' ; ')
-    sig = tuple(o.split()[0] + (o.split()[3][:3] if o.startswith('then') else '') for o in ops)
+    ops = line.split(' ', 1)[1].split(' ; ')
+    sig = (line.split(' ', 1)[0],) + tuple(o.split()[0] + (o.split()[3][:3] if o.startswith('then') else '') for o in ops)
     return (sig, out.split(' | ')[2] if ' | ' in out else out[:10])
 
 RULE = ('well-typed programs over the promise API: 1..3 initial promises (pending/resolved/rejected), then 1..12 operations drawn from then (value/void/promise-returning x rethrow/ignore/custom handler), '
-        'whenAll (variadic and iterator-range) / whenAny over 1..4 inputs, resolve/reject (incl. double settlement), attached before or after settlement; plus a stress list. non-trivial = distinct (operation signature, final states)')
+        'whenAll (variadic and iterator-range) / whenAny over 1..4 inputs, resolve/reject (incl. double settlement), attached before or after settlement; plus a stress list; '
+        'every program is run twice: `prog` keeps every handle to the end (final states compared), `progd` lets go of every promise object / resolver / rejection right after its last use (answers and log compared). non-trivial = distinct (operation signature, final states)')
 ASSUME = ['single-threaded (cross-thread interleavings are C12)', 'callbacks do not throw', 'a promise returned by a promise-returning callback is used for nothing else',
           'whenAll values are compared through an order-sensitive encoding (sum of v_i * 100^i)']
 
